@@ -467,6 +467,11 @@ func check(id, tier string, seed uint64, cases int, budget float64, workers int)
 		return nil
 	}
 	os.MkdirAll(filepath.Join(verifDir, "replays"), 0o755)
+	if old, _ := filepath.Glob(filepath.Join(verifDir, "replays", id+"-*.json")); len(old) > 0 {
+		for _, f := range old {
+			os.Remove(f)
+		}
+	}
 	violations := 0
 	knownHit := 0
 	var vioList []map[string]any
